@@ -16,7 +16,7 @@ from vf.core import Result
 LEVEL = "exploration"
 RULE = (
     "FASTA inputs of 1..40 entries (lengths 0..400; wrapped at 60/70/80 columns or unwrapped; with/without "
-    "trailing newline and descriptions; sequences without cleavage sites, ending in the cleavage residue, with "
+    "trailing newline and descriptions; sequences without cleavage sites, ending in the cleavage residue, with stop/gap symbols (* - X U), with "
     "runs of it; 1..3 input files) x shuffle/reverse x concatenate on/off x enzymes [KR], K, [DE] (str and "
     "compiled) x fresh np.random seed. Non-trivial = some target has an enzymatic peptide of length >=4 "
     "(an interior that can move); distinct = (seed,index,rep)."
@@ -66,6 +66,11 @@ def gen_fasta(rng, enzyme):
             if mode == "runs":
                 k = int(rng.integers(0, len(seq)))
                 seq = seq[:k] + cut[0] * int(rng.integers(2, 6)) + seq[k:]
+        if seq and rng.random() < 0.25:
+            # symbols that are legal in FASTA sequences but are not letters: stop (*), gap (-), unknown residue codes
+            sym = str(rng.choice(["*", "-", "X", "U"]))
+            k = int(rng.integers(0, len(seq) + 1)) if rng.random() < 0.5 else len(seq)
+            seq = seq[:k] + sym + seq[k:]
         entries.append((f"sp|Q{i:04d}|PROT{i}_TEST", seq))
     return entries
 
